@@ -36,6 +36,7 @@ theorem protoStep_inv {x : Option Nat} {w : World} (h : WInvX x w) (w' : World) 
     (hcko : ∀ t cr c, Pending w' t (.connack cr) → w.connReqs.get? cr = some c → c.proto = p →
       npr.lost = true ∨ (npr.state = .connecting ∧ npr.connReq = some cr))
     (hcrl : ∀ cr c, npr.connReq = some cr → w.connReqs.get? cr = some c → c.proto = p ∧ ∀ d, c.dfd = some d → d ∉ w.fired)
+    (hcrr : ∀ cr, npr.connReq = some cr → cr < w.nextCR)
     (hbuf : Bytes.WF npr.buffer) : WInvX x w' := by
   have hreq := req_of_reqs hr
   have hid' : ∀ e, idOf w' e = idOf w e := by intro e; simp [idOf, hreq]
@@ -139,6 +140,10 @@ theorem protoStep_inv {x : Option Nat} {w : World} (h : WInvX x w) (w' : World) 
   case connReqLive =>
     rw [hc, hf]; simp only [hprot]
     have := h.connReqLive
+    grind
+  case connReqRef =>
+    rw [hncr]; simp only [hprot]
+    have := h.connReqRef
     grind
   case subArmed =>
     rw [he]; simp only [hreq, hprot]
@@ -277,6 +282,7 @@ theorem pingOff_inv {x : Option Nat} {w : World} (h : WInvX x w) (p : Nat) (ppr 
     rw [hown, hpp] at a5; injection a5 with a5; subst a5
     exact a6
   · intro cr c hcq; exact h.connReqLive p ppr cr c hpp hcq
+  · intro cr hcq; exact h.connReqRef p ppr cr hpp hcq
   · exact h.bufOk p ppr hpp
 
 /-- MQTTBaseProtocol.handlePINGRESP -/
